@@ -51,16 +51,27 @@ type scase struct {
 	Steps   []sstep `json:"steps"`
 }
 
+// enc names the CONSTRUCTOR that option() really calls (the model maps each With…Paths constructor to
+// what it returns, `WCtor.opt`): a constructor that treats its paths differently from its …Mask
+// sibling (copies and normalises, drops, validates them) is a disagreement of the tie.
 func (o wopt) enc() string {
 	switch o.Kind {
-	case "update-mask", "update-paths":
+	case "update-mask":
 		return "U" + o.Mask.Enc()
-	case "more-update-mask", "more-update-paths":
+	case "update-paths":
+		return "P" + o.Mask.Enc()
+	case "more-update-mask":
 		return "u" + o.Mask.Enc()
-	case "reset-mask", "reset-paths":
+	case "more-update-paths":
+		return "p" + o.Mask.Enc()
+	case "reset-mask":
 		return "R" + o.Mask.Enc()
-	case "more-writable-fields", "more-writable-paths":
+	case "reset-paths":
+		return "r" + o.Mask.Enc()
+	case "more-writable-fields":
 		return "w" + o.Mask.Enc()
+	case "more-writable-paths":
+		return "v" + o.Mask.Enc()
 	case "all-writable":
 		return "A"
 	}
@@ -652,9 +663,106 @@ func seededSeqs() []scase {
 				step(seedWrittenNoForeign(), wopt{Kind: "update-paths", Mask: paths("default_int32", "default_int32.x")},
 					wopt{Kind: "more-update-paths", Mask: paths("default_foreign_message.c")}),
 			}},
+			// …and an unknown path below a valid path of the same WithUpdatePaths call, in both orders
+			scase{Root: "TestAllTypes", Site: site, Dst: h, DstText: t, Steps: []sstep{
+				step(seedWrittenForeign(), wopt{Kind: "update-paths", Mask: paths("default_foreign_message", "default_foreign_message.nope")}),
+				step(seedWrittenForeign(), wopt{Kind: "update-paths", Mask: paths("default_int32.x", "default_int32")}),
+			}},
 		)
+		// read-only resources (writable mask non-nil without paths, both construction routes): ordinary
+		// writes copy nothing — bare, masked (rejected), empty mask with and without reset, nil mask with
+		// reset (resets only), extra writable fields / privilege for one write, then ordinary again
+		for _, kind := range []string{"writable-fields", "writable-paths"} {
+			RO := []ropt{{Kind: kind, Mask: mt.Mask{Paths: []string{}}}}
+			out = append(out,
+				scase{Root: "TestAllTypes", Site: site, ROpts: RO, Route: "literal", Dst: h, DstText: t, Steps: []sstep{
+					step(seedWrittenForeign()),
+					step(seedWrittenForeign(), wopt{Kind: "update-paths", Mask: paths("default_int32")}),
+					step(seedWrittenForeign(), wopt{Kind: "update-mask", Mask: paths()}, wopt{Kind: "reset-paths", Mask: paths("default_int32")}),
+					step(seedWrittenForeign(), wopt{Kind: "reset-paths", Mask: paths("default_foreign_message.c")}),
+				}},
+				scase{Root: "TestAllTypes", Site: site, ROpts: RO, Route: "literal", Dst: h, DstText: t, Steps: []sstep{
+					step(seedWrittenForeign(), wopt{Kind: "update-paths", Mask: paths()}),
+					step(seedWrittenNoForeign(), wopt{Kind: "more-writable-paths", Mask: paths("default_int32")}),
+					step(seedWrittenForeign(), wopt{Kind: "more-writable-fields", Mask: paths()}),
+					step(seedWrittenForeign(), wopt{Kind: "all-writable", Mask: mt.NilMask()}, wopt{Kind: "update-paths", Mask: paths("default_foreign_message.d")}),
+					step(seedWrittenNoForeign()),
+				}},
+			)
+		}
 	}
 	return out
+}
+
+// ctorAlphabet: one or more representatives of every mask-related option constructor, with the mask
+// shapes that matter (nil, empty, a writable path, a path outside {default_int32}, an unknown path on
+// its own and below a valid path of the same call).
+func ctorAlphabet() []wopt {
+	paths := func(ps ...string) mt.Mask { return mt.Mask{Paths: ps} }
+	return []wopt{
+		{Kind: "update-mask", Mask: mt.NilMask()},
+		{Kind: "update-mask", Mask: paths()},
+		{Kind: "update-mask", Mask: paths("default_int32")},
+		{Kind: "update-paths", Mask: paths()},
+		{Kind: "update-paths", Mask: paths("default_int32")},
+		{Kind: "update-paths", Mask: paths("default_int32", "default_int32.x")},
+		{Kind: "update-paths", Mask: paths("default_foreign_message.c")},
+		{Kind: "more-update-mask", Mask: paths("default_foreign_message.c")},
+		{Kind: "more-update-paths", Mask: paths("default_foreign_message.c", "default_foreign_message.c.x")},
+		{Kind: "reset-mask", Mask: paths("default_int32")},
+		{Kind: "reset-paths", Mask: paths("default_foreign_message")},
+		{Kind: "reset-paths", Mask: paths("default_foreign_message", "default_foreign_message.nope")},
+		{Kind: "more-writable-paths", Mask: paths("default_foreign_message.c")},
+		{Kind: "more-writable-fields", Mask: paths()},
+		{Kind: "all-writable", Mask: mt.NilMask()},
+	}
+}
+
+// runExhaustiveOptions: every LIST of at most maxLen option constructors over ctorAlphabet, as the
+// options of one write on a Value and on a Collection item, for a resource that is fully writable,
+// read-only (empty non-nil writable mask) or has writable fields {default_int32}.
+func runExhaustiveOptions(f lib.Flags, res *lib.Result, drv *lib.Driver, mon *lib.Monitor) {
+	maxLen := f.N(2, 3)
+	tie := res.Tie("option-lists-exhaustive", "K2",
+		fmt.Sprintf("all lists of <=%d write-option constructors (ordered, repeats included) over a 15-letter alphabet covering every mask-related constructor of pkg/resource (WithUpdateMask nil/empty/one path, WithUpdatePaths empty/one path/a path with an unknown path below it/a path outside the writable fields, WithMoreUpdateMask, WithMoreUpdatePaths with an unknown path below a valid one, WithResetMask, WithResetPaths valid/with an unknown path below a valid one, WithMoreWritablePaths, WithMoreWritableFields without paths, WithAllFieldsWritable) x resource writable in {none, non-nil without paths, {default_int32}} x site in {Value.Set, Collection.Update} x 2 written messages, one stored message; the model is told which constructor was called (WCtor.opt); exhaustive over this finite domain", maxLen))
+	tie.Exhaustive = true
+	alpha := ctorAlphabet()
+	var lists [][]wopt
+	var rec func(cur []wopt)
+	rec = func(cur []wopt) {
+		lists = append(lists, append([]wopt{}, cur...))
+		if len(cur) == maxLen {
+			return
+		}
+		for _, o := range alpha {
+			rec(append(cur, o))
+		}
+	}
+	rec(nil)
+	h, t := mt.EncodeMsg(seedStored()), mt.CanonMsg(seedStored())
+	Ws := [][]ropt{nil,
+		{{Kind: "writable-fields", Mask: mt.Mask{Paths: []string{}}}},
+		{{Kind: "writable-paths", Mask: mt.Mask{Paths: []string{"default_int32"}}}}}
+	var cases []scase
+	flush := func() {
+		runSeqCases(cases, tie, mon, drv)
+		cases = cases[:0]
+	}
+	for _, ro := range Ws {
+		for _, site := range []string{"value", "collection"} {
+			for _, src := range []proto.Message{seedWrittenForeign(), seedWrittenNoForeign()} {
+				sh, stxt := mt.EncodeMsg(src), mt.CanonMsg(src)
+				for _, l := range lists {
+					cases = append(cases, scase{Root: "TestAllTypes", Site: site, ROpts: ro, Route: "literal", Dst: h, DstText: t,
+						Steps: []sstep{{Opts: l, Src: sh, SrcText: stxt}}})
+					if len(cases) >= 600 {
+						flush()
+					}
+				}
+			}
+		}
+	}
+	flush()
 }
 
 func runSequences(f lib.Flags, res *lib.Result, drv *lib.Driver) {
@@ -663,6 +771,7 @@ func runSequences(f lib.Flags, res *lib.Result, drv *lib.Driver) {
 	mon := res.Monitor("write-sequence-semantics",
 		"every step of every sequence: the write-semantics monitor (reset => absent; outside update∩writable => unchanged; inside => FieldMask update semantics; rejects change nothing; no panic; configured writable mask unchanged) with the masks the step's OWN option list denotes per the option documentation (last update-mask option decides, nil stays nil whatever WithMoreUpdate* follow; extras and all-writable are per write) and the stored message left by the previous steps; adding a new item leaves the other item unchanged")
 	runSeqCases(seededSeqs(), tie, mon, drv)
+	runExhaustiveOptions(f, res, drv, mon)
 	g := &mt.Gen{R: lib.NewRand(f.Seed + 7919)}
 	n := f.N(1800, 40000)
 	batch := 600
